@@ -90,7 +90,13 @@ func ResultValidationPairs() check.Family {
 	return check.Family{Name: "val-pairs-r", Cases: spec.L1ValidationPairs("result")}
 }
 
+// GRPCExamples: gRPC designs generated with BOTH gen and example (C10 itself runs gen only), so
+// that C01 also type-checks what goa writes for gRPC servers and examples.
+func GRPCExamples() check.Family {
+	return check.Family{Name: "grpc-examples", Cases: spec.GRPCStreams(), PerService: 4, PerDesign: 1, CompileOnly: true}
+}
+
 // All lists every family (C01, C07, C09 run over all of them).
 func All(thorough bool) []check.Family {
-	return []check.Family{PayloadSingle(), PayloadPair(thorough), ResultSingle(), ResultPair(thorough), ResultStatus(), PayloadValidation(thorough), ResultValidation(thorough), Errors(), Security(thorough), Views(thorough), Features(), StressAttrs(thorough), StressNames(thorough), PayloadValidationPairs(), ResultValidationPairs()}
+	return []check.Family{PayloadSingle(), PayloadPair(thorough), ResultSingle(), ResultPair(thorough), ResultStatus(), PayloadValidation(thorough), ResultValidation(thorough), Errors(), Security(thorough), Views(thorough), Features(), StressAttrs(thorough), StressNames(thorough), PayloadValidationPairs(), ResultValidationPairs(), GRPCExamples()}
 }
